@@ -71,8 +71,10 @@ CHECKS["C05"] = dict(
          "compiled twice (other process, other order) and must hash equal. Run time: corpus executions are validated against "
          "KotoVm.tla (NoInternalFault).",
     design_ref="DESIGN.md §5 C05",
-    note="Trusted: InstructionReader as the definition of the format; may-throw is over-approximated. Known finding RL1 "
-         "(register limit reported at run time) is pinned.",
+    note="Trusted: InstructionReader as the definition of the format; may-throw is over-approximated. Known findings RL1 "
+         "(register limit reported at run time) and RB1 (a return inside a string placeholder leaves the builder open in the "
+         "compiled code; harmless at run time since fix 52f5893) are pinned. Also covered: a byte-exact sweep across the 16-bit jump "
+         "distance and a matrix of discarded / used interpolated strings x 31 placeholder kinds.",
     technique="TLC exploration of the control-flow graph of real compiled chunks (ChunkCfg.tla) + scale sweep + double compilation",
     engine="chunkcfg")
 CHECKS["C06"] = dict(
